@@ -19,7 +19,7 @@ import subprocess
 import sys
 import traceback
 
-SLACK = 32
+SLACK = 4096      # guard zone behind the buffer and behind the struct (a too long copy must be SEEN, not crash)
 DIRTY = 0xA5
 CONFIGS = [("little", "little", False), ("big", "big", False), ("both", "both", False), ("both_be", "both", True)]
 
